@@ -264,6 +264,14 @@ def phi(cond, a, b):
         return a
     if cond == FALSE:
         return b
+    # `None if v is None else v` is v
+    if isinstance(cond, tuple) and cond[0] == "is" and cond[2] == NONE and a == NONE and b == cond[1]:
+        return b
+    # two dict literals with the same keys: join value-wise
+    if isinstance(a, tuple) and isinstance(b, tuple) and a and b and a[0] == "d" and b[0] == "d" and len(a[1]) == len(b[1]):
+        kb = dict(b[1])
+        if len(kb) == len(b[1]) and all(k in kb for k, _ in a[1]):
+            return ("d", tuple((k, phi(cond, v, kb[k])) for k, v in a[1]))
     return ("phi", cond, a, b)
 
 
